@@ -24,10 +24,82 @@ type EntryResult struct {
 	Notes        []string          `json:"notes,omitempty"`
 	MaxAlloc     int               `json:"max_alloc"`
 	Sample       map[string]string `json:"sample,omitempty"`
+	Workers      int               `json:"workers,omitempty"`
 }
 
-// expectedLabels scans the harness function (and functions it references in
-// the same package file) for constant labels of vnd.Assert / vnd.Cover calls.
+// Raw is the mergeable outcome of exploring (part of) an entry.
+type Raw struct {
+	Entry      string
+	Paths      int
+	PathEnds   map[string]int
+	Inconc     map[string]int
+	AssertSeen map[string]int
+	CoverHit   map[string][]map[string]string
+	Violations []*Violation
+	Bounds     map[string]int
+	MaxAlloc   int
+	Pending    [][]int64 // unexplored prefixes (split mode)
+	Seconds    float64
+	// statistics deltas
+	St     *Stats
+	Solver SolverStats
+}
+
+// SolverStats are the solver counters of a run.
+type SolverStats struct {
+	NSat, NUnsat, NUnknown, NCacheHit, NFallback int
+	Seconds                                      float64
+	Errors                                       []string
+}
+
+// SolverStats returns the counters of the solver.
+func (s *Solver) Stats() SolverStats {
+	return SolverStats{s.NSat, s.NUnsat, s.NUnknown, s.NCacheHit, s.NFallback, s.Seconds, s.Errors}
+}
+
+// AddStats merges counters of a worker into this solver's counters.
+func (s *Solver) AddStats(o SolverStats) {
+	s.NSat += o.NSat
+	s.NUnsat += o.NUnsat
+	s.NUnknown += o.NUnknown
+	s.NCacheHit += o.NCacheHit
+	s.NFallback += o.NFallback
+	s.Seconds += o.Seconds
+	s.Errors = append(s.Errors, o.Errors...)
+}
+
+// Merge adds the counters of o into st.
+func (st *Stats) Merge(o *Stats) {
+	if o == nil {
+		return
+	}
+	st.Paths += o.Paths
+	st.Decisions += o.Decisions
+	st.Merged += o.Merged
+	st.MergeFail += o.MergeFail
+	st.Steps += o.Steps
+	st.AssertQueries += o.AssertQueries
+	st.PanicQueries += o.PanicQueries
+	st.BranchQueries += o.BranchQueries
+	st.Assumes += o.Assumes
+	st.UnknownQueries += o.UnknownQueries
+	addM := func(dst, src map[string]int) {
+		for k, v := range src {
+			dst[k] += v
+		}
+	}
+	addM(st.PathEnds, o.PathEnds)
+	addM(st.Funcs, o.Funcs)
+	addM(st.Stubs, o.Stubs)
+	addM(st.Unsupported, o.Unsupported)
+	addM(st.ForkSites, o.ForkSites)
+	for k, v := range o.InitFailed {
+		st.InitFailed[k] = v
+	}
+}
+
+// expectedLabels scans the harness function (and the harness helpers it calls)
+// for constant labels of vnd.Assert / vnd.Cover calls.
 func expectedLabels(fn *ssa.Function) (asserts, covers []string) {
 	seen := map[*ssa.Function]bool{}
 	var visit func(f *ssa.Function)
@@ -61,7 +133,6 @@ func expectedLabels(fn *ssa.Function) (asserts, covers []string) {
 					}
 					continue
 				}
-				// harness helpers live in the same package and start with "verif"/"Verif"
 				if callee.Pkg == fn.Pkg && (strings.HasPrefix(callee.Name(), "verif") || strings.HasPrefix(callee.Name(), "Verif") || callee.Parent() != nil) {
 					visit(callee)
 				}
@@ -75,64 +146,135 @@ func expectedLabels(fn *ssa.Function) (asserts, covers []string) {
 	return
 }
 
-// RunEntry explores all paths of a harness entry function.
-func (m *Machine) RunEntry(fn *ssa.Function) *EntryResult {
+// Explore runs paths of fn. With prefixes == nil it starts from the root. With
+// splitAt > 0 it explores breadth-first and stops as soon as at least splitAt
+// prefixes are pending, returning them in Raw.Pending.
+func (m *Machine) Explore(fn *ssa.Function, prefixes [][]int64, splitAt int) *Raw {
 	start := time.Now()
-	res := &EntryResult{Entry: fn.Name(), PathEnds: map[string]int{}, Covers: map[string]bool{}, Asserts: map[string]int{}}
+	raw := &Raw{Entry: fn.Name(), PathEnds: map[string]int{}, Inconc: map[string]int{}}
 	m.entry = fn.Name()
-	m.work = [][]int64{nil}
+	if prefixes == nil {
+		m.work = [][]int64{nil}
+	} else {
+		m.work = append([][]int64{}, prefixes...)
+	}
 	m.St.CoverHit = map[string][]map[string]string{}
 	m.St.AssertSeen = map[string]int{}
 	m.unknownAsserts = nil
 	nviolBefore := len(m.Violations)
-	inconc := map[string]int{}
 	for len(m.work) > 0 {
-		if res.Paths >= m.Cfg.MaxPaths {
-			inconc[fmt.Sprintf("path budget %d exhausted with %d prefixes pending", m.Cfg.MaxPaths, len(m.work))]++
+		if splitAt > 0 && len(m.work) >= splitAt {
+			raw.Pending = m.work
+			m.work = nil
 			break
 		}
-		// depth-first: take the most recently pushed prefix
-		p := m.work[len(m.work)-1]
-		m.work = m.work[:len(m.work)-1]
+		if raw.Paths >= m.Cfg.MaxPaths {
+			raw.Inconc[fmt.Sprintf("path budget %d exhausted with %d prefixes pending", m.Cfg.MaxPaths, len(m.work))]++
+			break
+		}
+		var p []int64
+		if splitAt > 0 {
+			p = m.work[0]
+			m.work = m.work[1:]
+		} else {
+			p = m.work[len(m.work)-1]
+			m.work = m.work[:len(m.work)-1]
+		}
 		end := m.runPath(fn, p)
-		res.Paths++
+		raw.Paths++
 		m.St.Paths++
-		res.PathEnds[end.Kind]++
+		raw.PathEnds[end.Kind]++
 		m.St.PathEnds[end.Kind]++
 		m.St.Steps += int64(m.steps)
-		if m.maxAlloc > res.MaxAlloc {
-			res.MaxAlloc = m.maxAlloc
+		if m.maxAlloc > raw.MaxAlloc {
+			raw.MaxAlloc = m.maxAlloc
 		}
 		switch end.Kind {
 		case "unsupported", "budget":
-			inconc[end.Kind+": "+end.Msg]++
+			raw.Inconc[end.Kind+": "+end.Msg]++
 			m.St.Unsupported[end.Msg]++
 		}
 		if m.Cfg.Verbose {
-			fmt.Fprintf(os.Stderr, "  path %d: %s %s (decisions %d, steps %d, pending %d)\n", res.Paths, end.Kind, end.Msg, len(m.taken), m.steps, len(m.work))
+			fmt.Fprintf(os.Stderr, "  path %d: %s %s (decisions %d, steps %d, pending %d)\n", raw.Paths, end.Kind, end.Msg, len(m.taken), m.steps, len(m.work))
 		}
 		if m.Cfg.StopOnFirst && len(m.Violations) > nviolBefore {
 			break
 		}
 	}
 	for _, u := range m.unknownAsserts {
-		inconc["solver unknown on assertion "+u]++
+		raw.Inconc["solver unknown on assertion "+u]++
 	}
-	if m.St.UnknownQueries > 0 && len(m.unknownAsserts) == 0 {
-		res.Notes = append(res.Notes, fmt.Sprintf("%d feasibility queries returned unknown (both sides kept)", m.St.UnknownQueries))
+	raw.AssertSeen = m.St.AssertSeen
+	raw.CoverHit = m.St.CoverHit
+	raw.Violations = m.Violations[nviolBefore:]
+	raw.Bounds = m.BoundsUsed
+	raw.Seconds = time.Since(start).Seconds()
+	return raw
+}
+
+// MergeRaw folds b into a (same entry).
+func MergeRaw(a, b *Raw) {
+	a.Paths += b.Paths
+	for k, v := range b.PathEnds {
+		a.PathEnds[k] += v
 	}
+	for k, v := range b.Inconc {
+		a.Inconc[k] += v
+	}
+	if a.AssertSeen == nil {
+		a.AssertSeen = map[string]int{}
+	}
+	for k, v := range b.AssertSeen {
+		a.AssertSeen[k] += v
+	}
+	if a.CoverHit == nil {
+		a.CoverHit = map[string][]map[string]string{}
+	}
+	for k, v := range b.CoverHit {
+		if _, ok := a.CoverHit[k]; !ok {
+			a.CoverHit[k] = v
+		}
+	}
+	have := map[string]bool{}
+	for _, v := range a.Violations {
+		have[v.Key] = true
+	}
+	for _, v := range b.Violations {
+		if !have[v.Key] {
+			a.Violations = append(a.Violations, v)
+			have[v.Key] = true
+		}
+	}
+	if a.Bounds == nil {
+		a.Bounds = b.Bounds
+	} else {
+		for k, v := range b.Bounds {
+			a.Bounds[k] = v
+		}
+	}
+	if b.MaxAlloc > a.MaxAlloc {
+		a.MaxAlloc = b.MaxAlloc
+	}
+}
+
+// Finalize turns the merged raw outcome into the entry result, adding the
+// vacuity checks (every assert site reached, every cover satisfiable).
+func (m *Machine) Finalize(fn *ssa.Function, raw *Raw, seconds float64) *EntryResult {
+	res := &EntryResult{Entry: fn.Name(), Paths: raw.Paths, PathEnds: raw.PathEnds, Covers: map[string]bool{}, Asserts: map[string]int{},
+		MaxAlloc: raw.MaxAlloc, Bounds: raw.Bounds, Seconds: seconds, Violations: raw.Violations}
+	inconc := raw.Inconc
 	asserts, covers := expectedLabels(fn)
 	for _, l := range asserts {
-		res.Asserts[l] = m.St.AssertSeen[l]
-		if m.St.AssertSeen[l] == 0 {
+		res.Asserts[l] = raw.AssertSeen[l]
+		if raw.AssertSeen[l] == 0 {
 			inconc["assert site never reached: "+l]++
 		}
 	}
-	for l, n := range m.St.AssertSeen {
+	for l, n := range raw.AssertSeen {
 		res.Asserts[l] = n
 	}
 	for _, l := range covers {
-		_, hit := m.St.CoverHit[l]
+		_, hit := raw.CoverHit[l]
 		res.Covers[l] = hit
 		if !hit {
 			inconc["cover not reachable: "+l]++
@@ -141,9 +283,9 @@ func (m *Machine) RunEntry(fn *ssa.Function) *EntryResult {
 	if m.coverByEntry == nil {
 		m.coverByEntry = map[string]map[string][]map[string]string{}
 	}
-	m.coverByEntry[fn.Name()] = m.St.CoverHit
+	m.coverByEntry[fn.Name()] = raw.CoverHit
 	var cl []string
-	for l := range m.St.CoverHit {
+	for l := range raw.CoverHit {
 		cl = append(cl, l)
 	}
 	sort.Strings(cl)
@@ -151,7 +293,7 @@ func (m *Machine) RunEntry(fn *ssa.Function) *EntryResult {
 		res.Covers[l] = true
 		if res.Sample == nil {
 			res.Sample = map[string]string{"cover": l}
-			for _, e := range m.St.CoverHit[l] {
+			for _, e := range raw.CoverHit[l] {
 				res.Sample[e["name"]] = e["val"]
 			}
 		}
@@ -164,10 +306,13 @@ func (m *Machine) RunEntry(fn *ssa.Function) *EntryResult {
 	for _, k := range keys {
 		res.Inconclusive = append(res.Inconclusive, fmt.Sprintf("%s (×%d)", k, inconc[k]))
 	}
-	res.Violations = m.Violations[nviolBefore:]
-	res.Bounds = m.BoundsUsed
-	res.Seconds = time.Since(start).Seconds()
 	return res
+}
+
+// RunEntry explores all paths of a harness entry function in this process.
+func (m *Machine) RunEntry(fn *ssa.Function) *EntryResult {
+	raw := m.Explore(fn, nil, 0)
+	return m.Finalize(fn, raw, raw.Seconds)
 }
 
 // runPath executes fn once following the decision prefix.
